@@ -1330,6 +1330,12 @@ func HandleGetMsgs(cc *hotline.ClientConn, t *hotline.Transaction) (res []hotlin
 		cc.Logger.Error("Error reading messageboard", "err", err)
 	}
 
+	// The board is served in a single field, whose size prefix has 16 bits.  Once the board has outgrown that, the
+	// newest 65,535 bytes are served (posts are kept newest first) instead of a field with a wrapped size.
+	if len(newsData) > math.MaxUint16 {
+		newsData = newsData[:math.MaxUint16]
+	}
+
 	return append(res, cc.NewReply(t, hotline.NewField(hotline.FieldData, newsData)))
 }
 
